@@ -308,7 +308,7 @@ impl Scenario for NutsTransitions {
         "nuts_transitions"
     }
     fn runs(&self, tier: Tier) -> u64 {
-        tier.pick(1600, 80_000)
+        tier.pick(6400, 80_000)
     }
     fn generate(&self, g: &mut Gen, _t: Tier, _i: u64) -> Value {
         if g.bool(1, 40) {
@@ -440,7 +440,7 @@ impl Scenario for BuildTreeIsolated {
         "build_tree_isolated"
     }
     fn runs(&self, tier: Tier) -> u64 {
-        tier.pick(1400, 60_000)
+        tier.pick(5600, 60_000)
     }
     fn generate(&self, g: &mut Gen, _t: Tier, _i: u64) -> Value {
         let depth = match g.range(0, 19) {
